@@ -4,6 +4,7 @@ import vlib
 import langcheck
 
 LEVEL = "exploration"
+COMPILES_PROGRAMS = True      # check reports mlang.Compile's long-lived-compiler comparison (vlib.report_compiler_reuse)
 META = {
     "text": "spec/Fold.tla models opt.go's constant folder as an AST->AST operator; TLC checks the lemmas Eval(Fold(e))=Eval(e), "
             "'rejects only a literal-zero divisor' and 'folds to one literal' for every constant expression of depth<=2 over a literal set "
@@ -22,6 +23,13 @@ def fold_cfg(dev, emit, deep=False, family="const"):
                                                   "DEV_OtherwiseFlagIsGlobal": False, "DEV_MemoKeyedByValueOnly": False,
                                                   "DEV_MemoCachesFailure": False, "YearOpt": False},
                          invariants=["FoldPreservesValue", "RejectsOnlyZeroDivisor", "FoldsToLiteral", "KeepsNonConstant", "CheckerRejectImpliesFoldReject", "Emit"])
+
+
+def edge_cfg(deep):
+    # the 64-bit boundary family: the model only enumerates shapes (the lemmas would overflow TLC's integers)
+    return vlib.cfg_text(spec="Spec", constants={"DEV_FoldIntModFloatIsZero": False, "EmitCases": True, "Deep": deep, "Family": "edge",
+                                                  "DEV_OtherwiseFlagIsGlobal": False, "DEV_MemoKeyedByValueOnly": False,
+                                                  "DEV_MemoCachesFailure": False, "YearOpt": False}, invariants=["Emit"])
 
 
 def lit(e):
@@ -63,6 +71,17 @@ def explain_case(model_dev, c, rec):
             got = fr["i"] if fr["kind"] == "int" else fr["f"]
             if fr["kind"] != k or not close(got, n / d):
                 bad.append("%s: %s folds to %s %s, model %s %s/%s" % (mode, r["expr"], fr["kind"], got, k, n, d))
+        # the property itself, whatever the model can say about the value: where both compiles accept, they agree
+        on, off = r["on"], r["off"]
+        if on["accepted"] and off["accepted"]:
+            a = (on["rterr"], on["set"], on["type"], on["i"] if on["type"] == "Int" else on["fs"])
+            b = (off["rterr"], off["set"], off["type"], off["i"] if off["type"] == "Int" else off["fs"])
+            if a != b:
+                bad.append("%s: %s: optimised compile gives (runtime error, set, type, value) = %s, unoptimised %s" % (mode, r["expr"], a, b))
+                continue
+        elif off["accepted"] and not on["accepted"] and not (f["rej"] or c.get("ckrejon")):
+            bad.append("%s: %s: only the optimised compile rejects, and no literal zero divides: %s" % (mode, r["expr"], on["errors"][:160]))
+            continue
         # the optimised and unoptimised programs against the reference value
         v = c["v"]
         if v["ovf"]:
@@ -106,7 +125,9 @@ def run(ctx):
     if DEV in devs:
         vlib.expect_dev_counterexample(ctx, "Fold", fold_cfg(True, False, False), DEV, timeout=600)
     ro = vlib.tlc(ctx, "Fold", fold_cfg(False, True, ctx.thorough, "open"), label="Fold-open", timeout=2400, heap="12g")
-    ideal = ideal + ro.cases
+    re_ = vlib.tlc(ctx, "Fold", edge_cfg(ctx.thorough), label="Fold-edge", timeout=2400, heap="12g")
+    ideal = ideal + ro.cases + re_.cases
+    ctx.cov["edge_family_cases"] = len(re_.cases)
     recs = [x for x in vlib.run_harness(ctx, fbin, cases=[{"e": c["e"], "fe": c["f"]["e"], "open": c.get("open", False)} for c in ideal], timeout=2400) if "full" in x]
     if len(recs) != len(ideal):
         raise vlib.InfraError("fold harness processed %d of %d cases" % (len(recs), len(ideal)))
